@@ -165,6 +165,7 @@ def ow2(ctx, R):
         raise AnchorMissing("mutations of self.ordered_objects reached from read_segment_objects (found %d)" % interp.n_mut)
     # no other function mutates an ordered_objects list
     reached = set()
+    mutators = []
     for fi in prog.functions.values():
         for n in walk_body(fi.node):
             tgt = None
@@ -177,20 +178,36 @@ def ow2(ctx, R):
                     if isinstance(t, ast.Subscript) and isinstance(t.value, ast.Attribute) and t.value.attr == "ordered_objects":
                         tgt = n
             if tgt is not None:
-                inside = fi.cls is seg and fi.name in ("read_segment_objects", "_update_existing_object", "_reuse_previous_object") \
-                    or (fi.cls is seg and any(fi.qual in ch for ch in [interp.chain]))
+                if fi.cls is seg and fi not in mutators:
+                    mutators.append(fi)
                 if fi.cls is not seg:
                     R.violation("%s::mutates .ordered_objects" % fi.qual, fi.where(tgt), "a segment's object list is modified outside the "
                                 "metadata parser (lists are shared between segments by reference)")
     # helpers that mutate are called only from the metadata parser
     cg = ctx.callgraph()
-    for name in ("_update_existing_object", "_reuse_previous_object"):
-        q = "tdms_segment.TdmsSegment." + name
-        if q in prog.functions:
-            callers = {e.caller for e in cg.callers(q)}
-            R.check(callers <= {rso.qual}, q + "::callers", prog.functions[q].where(),
-                    "called only from read_segment_objects (after the list was copied)",
-                    "also called from %s" % sorted(callers - {rso.qual}))
+
+    def strangers(q, seen):
+        """callers (transitively) through which q is reached without passing read_segment_objects"""
+        out = set()
+        callers = {e.caller for e in cg.callers(q)}
+        if not callers:
+            out.add(q + " (not called from the metadata parser)")
+        for c in callers:
+            if c == rso.qual or c in seen:
+                continue
+            seen.add(c)
+            f2 = prog.functions.get(c)
+            if f2 is None or f2.cls is not seg:
+                out.add(c)
+            else:
+                out |= strangers(c, seen)
+        return out
+    for m in sorted(mutators, key=lambda f: f.qual):
+        if m is rso:
+            continue
+        bad = strangers(m.qual, {m.qual})
+        R.check(not bad, m.qual + "::callers", m.where(), "reached only through read_segment_objects (after the list was copied)",
+                "also reached from %s" % sorted(bad))
     # object_index dictionaries handed out by the cache are never mutated
     muts = []
     for fi in prog.functions.values():
@@ -452,7 +469,7 @@ def rj1(ctx, R):
         if found and found[0] == "method":
             ctor_quals.add(found[2].qual)
     from .region import call_reaches
-    for g in region(ctx, fi, depth=2):
+    for g in region(ctx, fi, depth=3):
         sy = Sym(prog, g, g.cls, inline=False)
         # the branch that handles an object never seen before is the one that creates a new segment object
         creations = [c for c in walk_body(g.node) if isinstance(c, ast.Call) and call_reaches(ctx, g, c, ctor_quals)]
@@ -466,12 +483,8 @@ def rj1(ctx, R):
             seen_any = True
             if not any(cg <= set(alpha(x) for x in guards) for cg in cguards):
                 continue
-            if g is fi:
-                outer = [()]
-            else:
-                sf = Sym(prog, fi, fi.cls, inline=False)
-                outer = [sf.env_at(c)[1] for c in calls_to(prog, fi, g.qual)]
-            for og in outer:
+            from .sem import call_chains
+            for og, _b in call_chains(prog, fi, g):
                 if not any(eval_cond(x, unseen_oracle) is False for x in og):
                     ok = True
     R.check(ok, "tdms_segment.TdmsSegment.read_segment_objects::unseen object with matches-previous header", fi.where(),
